@@ -124,7 +124,7 @@ func Rgb2Gray(colorImg image.Image) [][]float64 {
 	for i := range pixels {
 		pixels[i] = make([]float64, w)
 		for j := range pixels[i] {
-			color := colorImg.At(j, i)
+			color := colorImg.At(bounds.Min.X+j, bounds.Min.Y+i) // (a rectangle need not start at the origin)
 			r, g, b, _ := color.RGBA()
 			lum := 0.299*float64(r/257) + 0.587*float64(g/257) + 0.114*float64(b/256)
 			pixels[i][j] = lum
